@@ -21,6 +21,7 @@ OutcomeOK == \/ Ev.expect = "any"
 MemReplacedFileOnPath == Ev.backend = "mem" /\ Ev.class = "conflict" /\ Ev.fileInPathReplaced
 Frame ==
     (IF Ev.blocked THEN {"call-does-not-return"} ELSE {})
+    \cup (IF Ev.wedged THEN {"backend-no-longer-answers-after-the-call"} ELSE {})
     \cup (IF Ev.got = "crash" THEN {"call-crashes-the-process"} ELSE {})
     \cup (IF Ev.got # "crash" /\ Ev.panicked THEN {"call-panics"} ELSE {})
     \cup (IF Ev.handles # 0 THEN {"handle-left-open"} ELSE {})
@@ -37,7 +38,7 @@ Frame ==
 Call ==
     /\ l <= Len(Trace) /\ Ev.op = "Call"
     /\ Verdict(
-         IF Ev.blocked \/ Ev.got = "crash" \/ Ev.panicked THEN Frame
+         IF Ev.blocked \/ Ev.wedged \/ Ev.got = "crash" \/ Ev.panicked THEN Frame
          ELSE Frame \cup
               (CASE Ev.class = "defined" ->
                       (IF ~OutcomeOK THEN {"outcome-differs-from-the-documented-semantics"} ELSE {})
